@@ -28,6 +28,15 @@ def count_chunks(paths_data, buffer_size):
     return sum(1 for _ in dnaio.read_paired_chunks(io.BytesIO(paths_data[0]), io.BytesIO(paths_data[1]), buffer_size))
 
 
+def infer_nc(events, exit_status):
+    """Number of chunks of the input as far as the log tells: exactly the chunks sent once the reader has
+    started to send stop tokens, otherwise at least one more than were sent."""
+    sends = [e for e in events if e["ev"] == "r_send"]
+    if exit_status == 0 or any(e["ev"] == "r_pill" for e in events):
+        return len(sends)
+    return len(sends) + 1
+
+
 def trace_record(tid, log, nw, nc, exit_status, kinds):
     return dict(id=tid, nw=nw, nc=nc, exit=exit_status, kinds=list(kinds), events=[norm_event(e) for e in log])
 
@@ -130,3 +139,109 @@ def real_run(argv, inputs, workdir, trace_dir, timeout=60):
     shutil.rmtree(trace_dir, ignore_errors=True)
     return dict(exit=p.returncode, stderr=se.decode(errors="replace"), stdout=so, timed_out=timed_out,
                 files=files, logs=logs, wall=time.time() - t0)
+
+
+def validate_mp_run(ctx, logs, nw, nc, kinds, tag="mp"):
+    """Per-process hook logs of one real multi-process run -> is there an interleaving that is a behaviour
+    of Runner?  Returns (accepted: bool, detail)."""
+    roles = sorted(logs)
+    rec = dict(nw=nw, nc=nc, kinds=list(kinds), roles=roles,
+               logs=[[norm_event(e) for e in sorted(logs[r], key=lambda x: (x.get("pid", 0), x["seq"]))] for r in roles])
+    path = os.path.join(ctx.scratch, f"{tag}-{time.time_ns()}.json")
+    with open(path, "w") as f:
+        json.dump(rec, f)
+    r = tlc.model_check("Trace_RunnerMP", "Trace_RunnerMP.cfg", ctx.scratch, workers=4, env={"TRACE_FILE": path},
+                        timeout=900, xmx="3g")
+    os.unlink(path)
+    ctx.states += r["states"]
+    ctx.transitions += r["transitions"]
+    ctx.traces += 1
+    if r["violated"] == "NotAllConsumed":
+        return True, dict(states=r["states"])
+    if r["violated"]:
+        raise tlc.TLCFailure(f"Trace_RunnerMP: invariant {r['violated']} violated:\n{r['out'][-2000:]}")
+    total = sum(len(x) for x in rec["logs"])
+    return False, dict(states=r["states"], events=total, per_role={ro: len(l) for ro, l in zip(roles, rec["logs"])})
+
+
+# ---------------------------------------------------------------- spec -> code: replaying TLC behaviours
+ACTION_EVENT = {
+    "RFormat": ("R", "r_fmt"), "RFormatFail": ("R", "r_fmt_fail"), "RFail": ("R", "r_fail"), "RSend": ("R", "r_send"),
+    "RPill": ("R", "r_pill"), "RDone": ("R", "r_done"), "WAsk": ("W", "w_ask"), "WRes": ("W", "w_res"), "WExc": ("W", "w_exc"),
+    "WStats": ("W", "w_stats"), "MFormat": ("M", "m_fmt"), "MExc": ("M", "m_exc"), "MStart": ("M", "m_start"),
+    "MWait": ("M", "m_wait"), "MRes": ("M", "m_res"), "MStats": ("M", "m_stats"), "MFinish": ("M", "m_done"),
+}
+RE_LAST = re.compile(r'/\\ last = <<(.*?)>>\s*$', re.M)
+
+
+def simulate_behaviours(ctx, cfg, num, depth=80, seed=1):
+    """TLC -simulate on MC_Runner: returns a list of behaviours, each a list of action labels
+    [name, arg, ...] taken from the history variable `last` of every state."""
+    d = os.path.join(ctx.scratch, f"sim-{seed}")
+    os.makedirs(d, exist_ok=True)
+    cmd = ["java", "-XX:+UseSerialGC", "-Xss64m", "-XX:-UsePerfData", "-cp", tlc.JARS, "tlc2.TLC", "-simulate",
+           f"file={d}/tr,num={num}", "-depth", str(depth), "-seed", str(seed), "-workers", "1", "-metadir", os.path.join(d, "meta"),
+           "-noGenerateSpecTE", "-config", cfg, "MC_Runner.tla"]
+    r = subprocess.run(cmd, cwd=tlc.SPEC, stdout=subprocess.PIPE, stderr=subprocess.STDOUT, text=True, timeout=600)
+    m = re.search(r"The number of states generated: (\d+)", r.stdout)
+    if not m:
+        raise tlc.TLCFailure("TLC simulation failed:\n" + r.stdout[-2000:])
+    ctx.states += int(m.group(1))
+    ctx.transitions += int(m.group(1))
+    out = []
+    for name in sorted(os.listdir(d)):
+        if not name.startswith("tr_"):
+            continue
+        text = open(os.path.join(d, name)).read()
+        labels = []
+        for lab in RE_LAST.findall(text):
+            toks = re.findall(r'"([A-Za-z]+)"|<<([\d, ]*)>>|(-?\d+)', lab)
+            item = []
+            for a, b, c in toks:
+                if a:
+                    item.append(a)
+                elif c:
+                    item.append(int(c))
+                else:
+                    item.append([int(x) for x in b.split(",") if x.strip()])
+            labels.append(item)
+        # drop the initial label and the stuttering tail
+        beh = [lab for lab in labels[1:]]
+        while len(beh) >= 2 and beh[-1] == beh[-2] and beh[-1][0] in ("MFinish", "MExc"):
+            beh.pop()
+        out.append(beh)
+    import shutil
+    shutil.rmtree(d, ignore_errors=True)
+    return out
+
+
+def script_of(behaviour):
+    steps, readies = [], []
+    for lab in behaviour:
+        role, ev = ACTION_EVENT[lab[0]]
+        if role == "W":
+            role = f"W{lab[1]}"
+        steps.append((role, {ev}))
+        if lab[0] == "MWait":
+            readies.append(list(lab[1]))
+    return steps, readies
+
+
+def event_matches(lab, e):
+    """the hook event carries the same arguments as the TLC action label"""
+    n = lab[0]
+    if n == "RSend":
+        return e.get("chunk") == lab[1] and e.get("worker") == lab[2]
+    if n == "RPill":
+        return e.get("worker") == lab[1]
+    if n in ("WAsk", "WExc", "WStats"):
+        return e.get("worker") == lab[1]
+    if n == "WRes":
+        return e.get("worker") == lab[1] and e.get("chunk") == lab[2]
+    if n == "MWait":
+        return list(e.get("ready", [])) == list(lab[1])
+    if n == "MRes":
+        return e.get("worker") == lab[1] and e.get("chunk") == lab[2]
+    if n == "MStats":
+        return e.get("worker") == lab[1]
+    return True
